@@ -31,3 +31,18 @@ Definition check (c : case) : N :=
 
 (** [check] plus 10 when the file part of the spec holds (compared with Python's json module) *)
 Definition check_x (c : case) : N := check c + (if file_ok c then 10 else 0).
+
+(** One namespace of a project: the value trees of its locales in merge order (default first) and the final state
+    of the keys (`InterpolOrLit`: literal of one type in every locale, or a builder) as the implementation left it.
+    0 = the model's fold over the locales ends in the same state; 1 = the model reports an error where the
+    implementation did not (outside the modelled domain); 2 = the states differ.  (Values and tables are compared
+    unit by unit by [check].) *)
+Record nscase := mk_nscase {
+  n_trees : list group;
+  n_kinds : ikeys }.
+
+Definition check_ns (c : nscase) : N :=
+  match check_locales (n_trees c) with
+  | None => 1
+  | Some (_, ikf) => if ikeys_eqb ikf (n_kinds c) then 0 else 2
+  end.
